@@ -5,15 +5,41 @@ PROP = dict(
     mc=[
         dict(module="MCStreams", cfg=dict(quick="MCStreams_quick.cfg", thorough="MCStreams_thorough.cfg"),
              timeout=dict(quick=600, thorough=3000)),
+        # non-vacuity: the as-built model (nil *peekingReader Close dereferences nil, finding D12) must violate the property
         dict(module="MCStreams", cfg="MCStreams_asbuilt.cfg", expect_violation="StepsAllowed", timeout=300),
     ],
     gen=dict(module="GenStreams", cfg=dict(quick="GenStreams_quick.cfg", thorough="GenStreams_thorough.cfg"),
-             workers=1, timeout=1200),
-    level_text="",
-    level_note="",
+             workers=1, timeout=1500),
+    level_text="Streams.tla models request.go faithfully as a state machine (scripted underlying stream with sticky terminal "
+               "condition, bufio-backed peeking wrappers nested per HasBody call, actions HasBody / Read(k) / Close in any order, "
+               "nil body) and states C17 declaratively over the caller-visible history only (HasBody answer formula and repeat "
+               "agreement, delivered bytes are the next bytes of the original, errors only at the end and equal to the original "
+               "terminal condition, reads after close fail, the underlying stream is closed exactly once, no panic). TLC checks "
+               "model |= property plus the invariants Delivered ++ Buffered ++ Remaining = Original and 'draining from any state "
+               "yields the rest and the original end' for all scripts (content <=2/3 bytes, <=3/4 chunks incl. zero-length reads, "
+               "eof/err alone or with data) x declared length x all histories of <=5/8 actions. TLC then exports every transition "
+               "of the bounded model's state graph (shortest history + action) and the driver replays each on a real http.Request "
+               "whose Body is the scripted reader, plus seeded random cases up to 12 KiB (3 bufio buffers); every returned value "
+               "and the underlying Read/Close counters are validated by TLC against the declarative property.",
+    level_note="bounded exhaustive at model level; real code bound by trace validation of all-transitions coverage of the bounded "
+               "model (46 k / 410 k cases) and of seeded random large cases; faithfulness of the model to bufio/request.go was "
+               "additionally validated event-by-event (TraceStreamsStrict, by hand); sticky terminal conditions and fewer than 100 "
+               "consecutive empty reads assumed",
     design_ref="DESIGN.md 4.17",
     driver="c17",
     trace=dict(module="TraceStreams", cfg="TraceStreams.cfg"),
-    rule="",
-    assumptions=COMMON_ASSUME + [],
+    rule="case = one request (scripted body or nil body; Content-Length positive / zero header / absent, concretised in two "
+         "ways each) + one history of HasBody / Read(k) / Close calls + a final drain. Exhaustive part: every transition of the "
+         "bounded PeekBody model exported by TLC (GenStreams: contents <=2 (quick) / <=3 (thorough) bytes, <=3/4 chunks, "
+         "read sizes {0,1,2,4096}, histories <=4/5 actions). Seeded part: 400/3000 random cases with contents up to 12 KiB, chunk "
+         "and read sizes around the bufio buffer size. Non-trivial: length not declared, >=1 HasBody and >=1 Read/Close; "
+         "distinct by hash of the case.",
+    assumptions=COMMON_ASSUME + [
+        "the underlying stream has a sticky terminal condition (after an error/EOF every further Read returns it again); a one-shot "
+        "error is consumed by bufio.Peek and is outside the model",
+        "the underlying stream makes fewer than 100 consecutive empty reads (bufio gives up with io.ErrNoProgress)",
+        "after Close the underlying stream fails reads (as http bodies do) and its Close returns nil",
+        "ZeroLenReadAfterClose: a Read with an empty buffer after Close may return (0, nil): it cannot return stale data",
+    ],
+    exhaustive=False,
 )
